@@ -819,6 +819,27 @@ pub fn run_enumerated(ctx: &mut Ctx, bases: &[Base], weight: &dyn Fn(FieldKind) 
             }
         }
     }
+    // many tracks x many fragments: two honest counts whose product must not drive memory or work
+    {
+        let my = idx;
+        idx += 1;
+        if ctx.enter(my) {
+            use crate::refmp4::movie::{build, BaseMode, Codec, Fragment, Sample, Traf};
+            let (n_tracks, n_frags) = (256usize, 8192usize);
+            let opts = gen::TrackOpts { co64: false, fixed_stsz: false, uniform_size: None, uniform_dur: None, has_ctts: false, has_stss: false, sync_mode: 0 };
+            let tracks = (0..n_tracks).map(|i| gen::assemble_track(i as u32 + 1, Codec::Ttxt, 1000, *b"und", &[], &opts)).collect();
+            let mut m = gen::movie_shell(tracks);
+            m.frags = (0..n_frags)
+                .map(|fi| Fragment {
+                    seq: fi as u32 + 1,
+                    mdat_first: false,
+                    trafs: vec![Traf { track: fi % n_tracks, base: BaseMode::DefaultBaseIsMoof, tfdt: Some((0, fi as u64)), tfhd_dur: Some(1), tfhd_size: None, tfhd_flags: None, tfhd_sdi: None, trun_dur: false, trun_cts: false, trun_flags: false, trun_first_flags: None, trun_version: 0, lead: 0, samples: vec![Sample { size: 1, dur: 1, cts: 0, sync: true }], has_trun: true, trun_size: true }],
+                })
+                .collect();
+            let bytes = build(&m).bytes;
+            each(ctx, &AdvCase { bytes, desc: format!("{} tracks x {} fragments (one traf each)", n_tracks, n_frags), touched: vec![FieldKind::Count], base: 0, baseline: None });
+        }
+    }
     ctx.extra.insert("big_table_cases".into(), serde_json::json!(idx));
     // ---- prefixes of a few files ----
     ctx.stage("prefixes");
